@@ -480,6 +480,16 @@ class _Gen:
         idents = r.sample(VARIANT_IDENTS, nv)
         internal = isinstance(tag, dict) and "internal" in tag
         reserved = [tag["internal"]] if internal else []
+        # look-alikes: an internally tagged enum whose struct variants all carry ONE field of the same name (what an
+        # adjacently tagged enum looks like on the wire, except that the field may be omitted); an untagged enum over
+        # integer / optional float / string payloads (type-disjoint only if integer and number are told apart)
+        lookalike = internal and r.random() < 0.3
+        shared = r.choice([x for x in ("body", "value", "data", "content", "payload") if x not in reserved]) if lookalike else None
+        if tag == "untagged" and r.random() < 0.25:
+            pays = [["int", r.choice(["u32", "i64", "u8"])], ["option", ["float", "f64"]], ["string"]]
+            r.shuffle(pays)
+            d["variants"] = [{"ident": idn, "rename": None, "kind": "newtype", "ty": ty} for idn, ty in zip(idents, pays)]
+            return d
         for vi, ident in enumerate(idents):
             guarded = vi > 0          # variant 0 is the leaf every recursive value can bottom out in
             c = [("unit", 30 if vi == 0 else 22), ("newtype", 26), ("tuple", 14), ("struct", 28)]
@@ -497,6 +507,13 @@ class _Gen:
                     v["ty"] = self.te(i, 2, False, tag == "untagged")
             elif k == "tuple":
                 v["tys"] = [self.te(i, 1, False) for _ in range(r.randint(2, 3))]
+            elif k == "struct" and lookalike:
+                ty = self.te(i, 2, guarded)
+                f = {"ident": shared, "rename": None, "ty": ty, "mode": "req"}
+                roll = r.random()
+                if ty[0] in ("option", "vec", "map") and "skip" in F and roll < 0.5: f["mode"] = "default_skip"
+                elif "default" in F and roll < 0.7 and self.has_default(ty): f["mode"] = "default"
+                v["fields"] = [f]
             elif k == "struct":
                 v["fields"] = self.dedupe_wires(self.fields(i, r.randint(1, 3), reserved=reserved), None)
             d["variants"].append(v)
